@@ -84,8 +84,23 @@ DrRet(t) ==
 \* the loop ends: multi-stage -> CompletionGuard (PlGenDone); single stage -> the lambda returns at once
 GenEnd(t, f, x) ==
   IF Single THEN Finish(t, [f EXCEPT !.x = x])
+  ELSE IF cfg.fix THEN
+       \* fixed: the lambda returns / throws into the packageTask wrapper first (catch, otc-1); the
+       \* CompletionSignal captured by the closure fires when the closure is destroyed (PlGenDone)
+       /\ (IF x # 0 THEN TrySet(x) ELSE UNCHANGED <<exc, canceled>>)
+       /\ otc' = otc - 1
+       /\ stk' = [stk EXCEPT ![t] = SetTop(@, [f EXCEPT !.pc = "PlGenDone", !.x = 0, !.w = FALSE])]
+       /\ UNCHANGED depth
   ELSE /\ stk' = [stk EXCEPT ![t] = SetTop(@, [f EXCEPT !.pc = "PlGenDone", !.x = x])]
        /\ UNCHANGED <<exc, canceled, otc, depth>>
+
+\* end of a generator frame at / after its completion signal: the wrapper's end, unless already done
+GenFinish(t, f) ==
+  /\ (IF f.w /\ f.x # 0 THEN TrySet(f.x) ELSE UNCHANGED <<exc, canceled>>)
+  /\ otc' = (IF f.w THEN otc - 1 ELSE otc)
+  /\ UNCHANGED depth
+
+AtGen(t, pc) == stk[t] # <<>> /\ Top(t).k \in {"gen", "gsig"} /\ Top(t).pc = pc
 
 PlGenHasExc(t) ==
   /\ At(t, "gen", "PlGenHasExc") /\ ~Pending(t)
@@ -116,25 +131,24 @@ DrGen(t) ==
   /\ UNCHANGED <<cfg, gate, poolq, genLeft, leaked, bad, result>>
 
 PlGenDone(t) ==
-  /\ At(t, "gen", "PlGenDone") /\ ~Pending(t)
+  /\ AtGen(t, "PlGenDone") /\ ~Pending(t)
   /\ genLeft' = genLeft - 1
   /\ LET f == Top(t) IN
        IF genLeft = 1 THEN /\ stk' = [stk EXCEPT ![t] = SetTop(@, [f EXCEPT !.pc = "FutexWake"])]   \* notify(0)
                            /\ UNCHANGED <<exc, canceled, otc, depth>>
-       ELSE Finish(t, f)
+       ELSE GenFinish(t, f) /\ stk' = [stk EXCEPT ![t] = Pop(@)]
   /\ UNCHANGED <<cfg, gate, poolq, nextItem>> /\ NoGhost
 
 FutexWake(t) ==          \* FUTEX_WAKE(INT_MAX): the caller, if blocked, resumes at FutexRet
-  /\ At(t, "gen", "FutexWake") /\ ~Pending(t)
+  /\ AtGen(t, "FutexWake") /\ ~Pending(t)
   /\ LET f == Top(t)
          s1 == Pop(stk[t])
          mf == stk["main"][Len(stk["main"])]
          wake == t # "main" /\ mf.k = "main" /\ mf.pc = "FutexBlocked" IN
-       /\ (IF f.x # 0 THEN TrySet(f.x) ELSE UNCHANGED <<exc, canceled>>)
-       /\ otc' = otc - 1
+       /\ GenFinish(t, f)
        /\ stk' = [stk EXCEPT ![t] = s1,
                              !["main"] = IF wake THEN SetTop(@, [mf EXCEPT !.pc = "FutexRet"]) ELSE IF t = "main" THEN s1 ELSE @]
-  /\ UNCHANGED <<cfg, gate, poolq, genLeft, nextItem, depth>> /\ NoGhost
+  /\ UNCHANGED <<cfg, gate, poolq, genLeft, nextItem>> /\ NoGhost
 
 \* ================================================================== the abstract pool
 \* who may take a wrapped task: the submitter itself (zero-thread pool), an idle worker, or the
@@ -168,10 +182,14 @@ TaskSkip(t, task) ==
   /\ canceled
   /\ poolq' = poolq \ {task}
   /\ otc' = otc - 1
-  /\ stk' = [stk EXCEPT ![t] = HelpUsed(t)]
+  \* fixed: the skipped generator closure is destroyed right after the wrapper returns and its
+  \* CompletionSignal fires (frame "gsig" at PlGenDone).  Unfixed: the completion count is never
+  \* decremented for a skipped instance and the caller blocks in completion_->wait(0) forever.
+  /\ stk' = [stk EXCEPT ![t] = IF task.k = "gen" /\ cfg.fix /\ ~Single
+                                  THEN Append(HelpUsed(t), Frame("gsig", "PlGenDone", 0, task.it))
+                                  ELSE HelpUsed(t)]
   /\ leaked' = (IF task.k = "item" /\ ~IsUnl(task.g) /\ ~cfg.fix THEN leaked \cup {task.it} ELSE leaked)
-  /\ genLeft' = genLeft        \* (a skipped generator instance never signals the completion event: see GenSkipped)
-  /\ UNCHANGED <<cfg, gate, canceled, exc, nextItem, depth, runs, infl, done, thrown, bad, result>>
+  /\ UNCHANGED <<cfg, gate, canceled, exc, genLeft, nextItem, depth, runs, infl, done, thrown, bad, result>>
 
 Terminated ==            \* stutter at the end so that TLC's deadlock check flags every other dead end
   /\ result # -2 /\ \A t \in Workers : stk[t] = <<>>
